@@ -89,8 +89,15 @@ func AmountFromString(val string) (Amount, error) {
 		if err != nil {
 			return a, fmt.Errorf("invalid decimal number '%v', %w", val, err)
 		}
+		if len(x[1]) > 18 {
+			return a, fmt.Errorf("invalid decimal number '%v', too many decimal places", val)
+		}
 		e = uint32(len(x[1]))
-		v = v * intPow(10, e)
+		p := intPow(10, e)
+		if v > (math.MaxInt64-v2)/p {
+			return a, fmt.Errorf("invalid number '%v', value out of range", val)
+		}
+		v = v * p
 		v += v2
 	}
 
